@@ -202,6 +202,29 @@ def check(col: Collector, tier: str):
         names_in = ["".join(shape(parts(em.node, c.args[0]))) for c in tl]
         ok = any('{"self._tree_name"}' in s and ("TTree" in s) for s in names_in)
         col.add("C03.R5", f"{bk}.emit", "tree-created-with-the-tree-name", ok, f"lines {names_in}", em.loc)
+        # the handles the booking lines use (`myTree->Branch`, `fs->make`) are introduced by an earlier line of the same emitter, or are
+        # members of the class the backend's template declares
+        import re as _re
+        all_lines = ["".join(shape(parts(em.node, c.args[0]))) for c in sorted(
+            [c for c in ast.walk(em.node) if isinstance(c, ast.Call) and call_name(c) == "add_line"], key=lambda c: c.lineno)]
+        tdir = {"book_xaod_ttree": "atlas/r21", "book_cms_aod_ttree": "cms/r5", "book_cms_miniaod_ttree": "cms/r7"}.get(bk)
+        ttxt = ""
+        if tdir:
+            for tf in sorted((REPO / "func_adl_xAOD/template" / tdir).glob("*")):
+                if tf.suffix in (".h", ".cc", ".cxx"):
+                    ttxt += tf.read_text()
+        undeclared = []
+        for i, ln in enumerate(all_lines):
+            for h in _re.findall(r"(?<![\w>.])([A-Za-z_]\w*)->", ln):
+                before = "\n".join(all_lines[:i])
+                local = _re.search(r"(?:auto|[\w:<>]+[\s*&]+)\s*" + _re.escape(h) + r"\s*(=|;|\()", before) is not None \
+                    or _re.search(r"[\w:<>]+\s+" + _re.escape(h) + r"\s*;", before) is not None
+                member = _re.search(r"[\w:<>]+\s*[*&]?\s*" + _re.escape(h) + r"\s*;", ttxt) is not None
+                assigned_here = _re.match(r"\s*" + _re.escape(h) + r"\s*=", ln) is not None
+                if not (local or member) and not (assigned_here and member):
+                    undeclared.append(f"{h} (line template {ln[:40]!r})")
+        col.add("C03.R5", f"{bk}.emit", "booking-handles-are-introduced-first", not undeclared,
+                f"handles used by the booking lines without a declaration in an earlier line or in the {tdir} class: {undeclared}", em.loc)
         fc = repo.find_class(fl)
         fe = fc.methods.get("emit")
         fls = ["".join(shape(parts(fe.node, c.args[0]))) for c in walk_no_nested(fe.node) if isinstance(c, ast.Call) and call_name(c) == "add_line"]
